@@ -65,6 +65,20 @@ static long count_m(int tier)
     return n * NRECIPE * 2;
 }
 
+/*
+ * Part N: the ideal instrument (what is measured is the S matrix itself)
+ * with the predefined short, open and match: coefficients that are 0 and
+ * +-1 and cancel exactly during the elimination.
+ */
+static int g_n_ideal;
+static long count_n(int tier)
+{
+    long n = 0;
+    for (int t = 0; t < 8; ++t)
+	n += (long)ndims(tier, types[t]);
+    return n * NRECIPE * NEV;
+}
+
 static long count_main(int tier)
 {
     long n = 0;
@@ -191,14 +205,25 @@ out:
 
 static long count(int tier)
 {
-    return count_main(tier) + NPARTL + count_m(tier);
+    return count_main(tier) + NPARTL + count_m(tier) + count_n(tier);
 }
 
 static void run(int tier, long idx, vf_result *r)
 {
     static cs_scenario sc;
     g_m_nf = 0;
-    if (idx >= count_main(tier) + NPARTL) {
+    g_n_ideal = 0;
+    if (idx >= count_main(tier) + NPARTL + count_m(tier)) {
+	/* part N: the main case on the ideal instrument, predefined
+	   standards, one frequency; recipe, order and shape from the index */
+	long m = idx - count_main(tier) - NPARTL - count_m(tier);
+	g_n_ideal = 1;
+	int recipe_n = vf_digit(&m, NRECIPE);
+	int ev_n = vf_digit(&m, NEV);
+	idx = ((((((((m * NAB + 0) * NRECIPE + recipe_n) * NEV + ev_n) * NAV
+				+ 0) * NPV + 0) * NKV + 0) * nnf(tier) + 0)
+		* nnet(tier) + 0) * NFILL + 0;
+    } else if (idx >= count_main(tier) + NPARTL) {
 	/* part M: the main case with tabulated standards, first handle 3,
 	   network 0, recipe and shape from the index */
 	long m = idx - count_main(tier) - NPARTL;
@@ -245,6 +270,8 @@ static void run(int tier, long idx, vf_result *r)
     }
     if (tier == 0)
 	net = 2;	/* quick tier: the network with every term non-zero */
+    if (g_n_ideal)
+	net = 4;
     memset(&sc, 0, sizeof(sc));
     cs_make_vna(&sc.vna, types[t], rows, cols, nf, net);
     sc.ab = ab;
@@ -263,6 +290,7 @@ static void run(int tier, long idx, vf_result *r)
     }
     cs_describe(&sc, desc, sizeof(desc));
     vf_desc(r, "%snet=%d ev=%d av=%d pv=%d kv=%d%s first-handle=%d %s",
+	    g_n_ideal ? "part N (ideal instrument) " :
 	    g_m_nf > 0 ? "part M (tables of the calibration's point count and "
 	    "end points, other points between) " : "", net, ev,
 	    av, pv, kv, real_scalars ? " (real scalars)" : "", 3 + fill, desc);
